@@ -170,6 +170,8 @@ CLASS_LEVEL = (
     + [("block", k, tuple((a,) for a in arms)) for k in ("if", "tc", "tc-nested-if", "try-except")
        for arms in itertools.product(ARM_LEAVES_SMALL + [("def", "a", "property"), ("def", "b", "staticmethod")], repeat=ARMS[k])]
     + [("def", "__init__", "init"), ("def", "__init__", "init-cond"), ("def", "__init__", "init-ann")]
+    # methods other than __init__ that assign to self: instance attributes are only read from __init__ (the class-level binding of the name stays what it was)
+    + [("def", "__post_init__", "self-assign"), ("def", "b", "self-assign"), ("def", "__new__", "self-assign")]
 )
 VIS_NAMES = ["a", "_p", "__m", "__d__"]
 
@@ -289,6 +291,10 @@ def render_stmt(r: R, s, ind, ctx, scope):
             l1, l2 = r.emit("self.a = 1", ind + 1)
             init_events.append({"op": "bind", "name": "a", "kind": "attribute", "lineno": l1, "endlineno": l2, "cond": None, "guard": ctx["guard"], "labels": {"instance-attribute"}, "instance": True})
             l1, l2 = r.emit("self.z.b = 2", ind + 1)  # (an attribute of an attribute of self: binds nothing on the class)
+        elif v == "self-assign":
+            r.emit(head, ind)
+            r.emit("self.a = 2", ind + 1)
+            r.emit("self.c: int = 3", ind + 1)
         elif v == "init-cond":
             r.emit(head, ind)
             r.emit("if self:", ind + 1)
